@@ -110,6 +110,17 @@ def make_structured(n: int, recipe: dict, dtype: torch.dtype) -> tuple[torch.Ten
         B = torch.randn(k, 2, generator=g, dtype=D)
         A = torch.zeros(n, n, dtype=D)
         A[:k, :k] = B @ B.T
+    elif kind == "zero_rows_indefinite":
+        # k identically-zero rows / columns (dead units) next to a block that is slightly indefinite (round-off-like negative eigenvalue)
+        k = max(1, min(n - 2, int(torch.randint(1, max(2, n // 2 + 1), (1,), generator=g)))) if n >= 3 else 0
+        m = n - k
+        lam = 10.0 ** (-recipe.get("logk", 2.0) * torch.rand(m, generator=g, dtype=D))
+        lam[0] = 1.0
+        lam[-1] = -abs(delta) * 1e-1  # within [-1e-3 * scale, 0)
+        Qm = torch.linalg.qr(torch.randn(m, m, generator=g, dtype=D)).Q
+        A = torch.zeros(n, n, dtype=D)
+        idx = torch.randperm(n, generator=g)[:m].sort().values
+        A[idx[:, None], idx[None, :]] = (Qm * lam) @ Qm.T
     elif kind == "newton_unit_start":
         # constant diagonal d, off-diagonal +-rho*d (A = d[(1-rho) I + rho s s^T], PSD for rho <= 1) with rho chosen so that
         # ||A + eps I||_F = (r+1)/2 * (d + eps): the coupled Newton iteration's starting matrix M_0 = z (A + eps I), z = (r+1) / (2 ||A + eps I||_F),
@@ -147,7 +158,7 @@ def st_recipe(max_logk: float = 8.0, allow_neg: bool = False, allow_zero: bool =
         if allow_neg:
             r["neg"] = draw(st.sampled_from([0.0, 0.0, 1e-7, 1e-5, 1e-3]))
         if draw(st.integers(0, 5)) == 0:
-            kinds = ["arrow", "banded", "skip_band", "block_sparse"] + (["zero_diag_coupled", "zero_diag_coupled"] if allow_neg else [])
+            kinds = ["arrow", "banded", "skip_band", "block_sparse"] + (["zero_diag_coupled", "zero_diag_coupled", "zero_rows_indefinite", "zero_rows_indefinite"] if allow_neg else [])
             r["struct"] = draw(st.sampled_from(kinds))
             r["coupling"] = draw(st.sampled_from([1e-2, 3e-2, 1e-3, 1e-4]))
             r["psd"] = not allow_neg
